@@ -42,7 +42,7 @@ for pid in sorted(checks.PROPS):
         "engine": "gosym",
         "level_claimed": {"category": "model_checking", "text": p["level_text"], "design_ref": "DESIGN.md §4 " + pid},
         "level_note": p["level_note"],
-        "technique": p.get("technique", "bounded symbolic execution of the go/ssa form of the real code; SMT (z3) decides every path; counterexamples replayed natively"),
+        "technique": p.get("technique", "bounded symbolic execution of the go/ssa form of the real code; SMT (z3) decides every path over the symbolic inputs; counterexamples replayed natively (jobs listed with 0 queries in the evidence have no symbolic input: they are concrete runs of the same harnesses through the same engine and only widen the dictionary)"),
     }
     man["checks"].append(c)
 json.dump(man, open(os.path.join(ROOT, "MANIFEST.json"), "w"), indent=1)
